@@ -971,7 +971,106 @@ func Establishes(from, to *ssa.BasicBlock, p Pred) bool {
 		}
 		return n > 0
 	}
-	return p.holds(cond, neg)
+	if p.holds(cond, neg) {
+		return true
+	}
+	// errors merged into one variable: `if err == nil { err = f() }; if err != nil { return }`.  On the edge where the
+	// merged value φ is nil, an incoming value that was known non-nil on its way in cannot be the one that arrived, so
+	// the remaining incoming values were nil.
+	if c, isCmp := p.(Cmp); isCmp && c.Op == token.EQL && phiNilDepth == 0 {
+		phiNilDepth++
+		defer func() { phiNilDepth-- }()
+		if bo, isBo := cond.(*ssa.BinOp); isBo && (bo.Op == token.EQL || bo.Op == token.NEQ) {
+			isNilEdge := (bo.Op == token.EQL) != neg
+			var ph *ssa.Phi
+			switch {
+			case IsNil()(bo.Y):
+				ph, _ = bo.X.(*ssa.Phi)
+			case IsNil()(bo.X):
+				ph, _ = bo.Y.(*ssa.Phi)
+			}
+			if isNilEdge && ph != nil && c.Y(nilConstOf(ph.Type())) {
+				return phiNilImplies(ph, c.X, 0)
+			}
+		}
+	}
+	return false
+}
+
+// phiNilDepth guards the φ-nil reasoning against re-entering itself through Guarded/Establishes.
+var phiNilDepth int
+
+// nilConstOf: a nil constant of type t (for asking a value matcher "do you match nil?").
+func nilConstOf(t types.Type) ssa.Value { return ssa.NewConst(nil, t) }
+
+// phiNilImplies: knowing φ == nil, is a value matching x known to be nil?  True when x matches an incoming value
+// (or, recursively, an incoming φ implies it) and every other incoming value is provably non-nil on its in-edge.
+func phiNilImplies(ph *ssa.Phi, x VM, depth int) bool {
+	if depth > 4 {
+		return false
+	}
+	found := false
+	for i, e := range ph.Edges {
+		if i >= len(ph.Block().Preds) {
+			return false
+		}
+		pred := ph.Block().Preds[i]
+		if x(e) {
+			found = true
+			continue
+		}
+		if inner, isPhi := e.(*ssa.Phi); isPhi && phiNilImplies(inner, x, depth+1) {
+			found = true
+			continue
+		}
+		if nonNilOnEdge(e, pred, ph.Block(), depth) {
+			continue
+		}
+		// or the fact is already known on that way in (the branch that computed e was entered under x == nil)
+		isNil := Cmp{token.EQL, x, IsNil()}
+		if Establishes(pred, ph.Block(), isNil) {
+			found = true
+			continue
+		}
+		if fn := pred.Parent(); fn != nil {
+			if g, _ := WholeFn(fn).Guarded(Item{In: lastInstr(pred)}, isNil); g {
+				found = true
+				continue
+			}
+		}
+		return false
+	}
+	return found
+}
+
+// nonNilOnEdge: the value v is known to be non-nil when control arrives over pred→blk.
+func nonNilOnEdge(v ssa.Value, pred, blk *ssa.BasicBlock, depth int) bool {
+	switch x := v.(type) {
+	case *ssa.MakeInterface:
+		return true
+	case *ssa.Const:
+		return !x.IsNil()
+	case *ssa.Phi:
+		if depth > 4 {
+			return false
+		}
+		for i, e := range x.Edges {
+			if i >= len(x.Block().Preds) || !nonNilOnEdge(e, x.Block().Preds[i], x.Block(), depth+1) {
+				return false
+			}
+		}
+		return true
+	}
+	notNil := Cmp{token.NEQ, Same(v), IsNil()}
+	if Establishes(pred, blk, notNil) {
+		return true
+	}
+	if fn := pred.Parent(); fn != nil {
+		if g, _ := WholeFn(fn).Guarded(Item{In: lastInstr(pred)}, notNil); g {
+			return true
+		}
+	}
+	return false
 }
 
 // Guarded: every path from the region starts to the site crosses an edge establishing p.
